@@ -20,6 +20,8 @@
   ws.rs:202-266        `send_task`: `select(rx_item, (ping, stop))` polls the queue FIRST, so the
                        stop signal is only honoured on an empty queue (`writerExit` needs
                        `noQueued`); a failing send ends it (peer gone).          [atomic here]
+                       (reads do not look at `peerGone`: what the client wrote before it went
+                       away may still be taken off the socket buffer)
   ws.rs:154-185        call task: handler (`callStart` … `handlerReturn`), then `sink.send(json)`
                        into the bounded queue (`enqueue`), fails when the writer is gone.
   future.rs:83-95      `stop()` = `watch::Sender::send` (Err iff no receiver is left);
@@ -156,11 +158,11 @@ def enabled (s : State) (op : Op) : Bool :=
   | .callSend c k => connSat s c (fun x => !x.peerGone) && !hasCall s k
   | .wsRead k =>
     callSat s k (fun y => y.phase == .sent &&
-      connSat s y.conn (fun x => x.tr == .ws && x.phase == .open && !x.peerGone))
+      connSat s y.conn (fun x => x.tr == .ws && x.phase == .open))
   | .callStart k => callSat s k (fun y => y.phase == .received)
   | .httpRead k =>
     callSat s k (fun y => y.phase == .sent &&
-      connSat s y.conn (fun x => x.tr == .http && x.phase == .open && !x.peerGone) && noInflight s y.conn)
+      connSat s y.conn (fun x => x.tr == .http && x.phase == .open) && noInflight s y.conn)
   | .handlerReturn k => callSat s k (fun y => y.phase == .started)
   | .enqueue k =>
     callSat s k (fun y => y.phase == .answered &&
@@ -237,6 +239,20 @@ def run (s : State) (ops : List Op) : State :=
   match ops with
   | [] => s
   | op :: r => run (step s op).1 r
+
+/-! ### derived op sequences used by the trace checker (Driver/ConnFamily.lean)
+
+The harness sees only some steps (handler start/return, answers, EOF, `stopped()`); the others
+are filled in by these fixed sequences.  They are plain `run`s of `step`, so every theorem about
+all op sequences covers whatever the checker executes. -/
+
+/-- what can happen to an answer once its handler returned, without anybody else's help -/
+def flushOps (k : Nat) : List Op := [.enqueue k, .writerStep k, .httpWrite k]
+
+/-- the invisible steps by which the task of connection `c` winds down (disabled ones are skipped) -/
+def windDownOps (c : Nat) : List Op := [.observeStop c, .wsDrained c, .writerExit c, .httpClose c]
+
+def windDownAllOps (s : State) : List Op := .acceptExit :: s.conns.flatMap (fun x => windDownOps x.id)
 
 /-- steps the server (and its handlers) take by themselves; everything else is the environment:
 clients connecting / sending / going away and the owner calling `stop` or dropping the handle -/
